@@ -54,6 +54,7 @@ def update_zip(fileobj, files):
     fileobj.seek(0)
     destination_fileobj.seek(0)
     shutil.copyfileobj(destination_fileobj, fileobj)
+    fileobj.truncate()
 
 
 def split_path(path):
